@@ -48,13 +48,14 @@ func Mplus(s1, s2 *StreamOfStates) *StreamOfStates {
 	if s1 == nil {
 		return s2
 	}
-	car, cdr := s1.CarCdr()
-	if car != nil { // not a suspension => procedure? == false
-		return NewStream(car, func() *StreamOfStates {
-			return Mplus(cdr, s2)
+	if s1.state == nil { // a suspension => procedure? == true: do not run it before the merged stream is forced
+		return Suspension(func() *StreamOfStates {
+			_, cdr := s1.CarCdr()
+			return Mplus(s2, cdr)
 		})
 	}
-	return Suspension(func() *StreamOfStates {
-		return Mplus(s2, cdr)
+	car, cdr := s1.CarCdr()
+	return NewStream(car, func() *StreamOfStates {
+		return Mplus(cdr, s2)
 	})
 }
